@@ -40,8 +40,12 @@ LEVEL_TEXT = ("Coq theorems over the reals about the executable Gallina model of
               "refined knot. Round 3 (Proofs/KnotRemMultiDir.v, [G]): several directions in ONE insert_knot call followed by ONE remove_knot call "
               "with the same parameters and counts returns the original record (degrees, knot vectors, sizes, whole net) for surfaces and volumes - "
               "insertions in different directions commute on control nets, and the tolerance-based multiplicity / span lookups of remove_knot "
-              "answer s + r and k + r after the insertion. Tied by correspondence/oracle only: smaller removal counts than insertion counts in a "
-              "multi-direction call, the object wrappers.")
+              "answer s + r and k + r after the insertion; with SMALLER removal counts the call returns exactly the insertion result for the "
+              "differences (Proofs/KnotRemMore.v). Removal after a GENERAL refinement (Proofs/KnotRemMoreRefine/Order.v): A5.4 with any admissible "
+              "X equals the chain of single insertions in any order, and removing the refined knots in ANY order and grouping never raises, "
+              "restores control points and knot vector exactly and leaves the curve unchanged after every step; removing some of them gives the "
+              "refinement by the rest (curves; also at knot_refinement / refine_knotvector level). Tied by correspondence/oracle only: "
+              "refine-then-remove on surfaces and volumes, the object wrappers.")
 LEVEL_NOTE = ("The model describes helpers.knot_removal after fixes/C06-knot-removal.diff (alignment with Algorithm A5.8). It is tied to /repo by the "
               "sampled correspondence check (tolerance 1e-9). Shape preservation in the theorems is stated on control nets (insertion of the "
               "removed knot gives back the net); its equivalence with equality of evaluated points is C04's insertion theorem.")
